@@ -684,6 +684,7 @@ pub enum ExecuteSequencesError {
     DecodebufferError(DecodeBufferError),
     NotEnoughBytesForSequence { wanted: usize, have: usize },
     ZeroOffset,
+    BlockTooBig { size: u64, max: u32 },
 }
 
 impl core::fmt::Display for ExecuteSequencesError {
@@ -700,6 +701,12 @@ impl core::fmt::Display for ExecuteSequencesError {
             }
             ExecuteSequencesError::ZeroOffset => {
                 write!(f, "Illegal offset: 0 found")
+            }
+            ExecuteSequencesError::BlockTooBig { size, max } => {
+                write!(
+                    f,
+                    "Block would regenerate {size} bytes. The format allows at most {max} bytes per block"
+                )
             }
         }
     }
